@@ -145,8 +145,13 @@ def parse_replies(out):
     return res
 
 
+# staging files a killed server left behind (their pid is nobody's): part of the served tree like any other file
+STALE = {"f.4000000000.copia-tmp", os.path.join("docs", "report.4000000001.copia-tmp")}
+
+
 def tree_state(root):
     f, conf, other = "none", "none", []
+    seen_stale = set()
     for dp, dn, fn in os.walk(root):
         if os.path.relpath(dp, root).startswith(".copia"):
             continue
@@ -161,8 +166,13 @@ def tree_state(root):
             elif rel == os.path.join("docs", "keep"):
                 if data != b"keep\n":
                     other.append(rel)
+            elif rel in STALE:
+                seen_stale.add(rel)
+                if data != b"left by a server that was killed\n":
+                    other.append(rel)
             elif not rel.endswith(".copia-tmp"):
                 other.append(rel)
+    other += sorted(STALE - seen_stale)          # the staging files of OTHER (dead) servers are not this server's to remove
     return f, conf, other
 
 
@@ -205,6 +215,8 @@ def fresh_root():
     open(os.path.join(root, "f"), "wb").write(hr.CONTENTS["c1"])
     os.makedirs(os.path.join(root, "docs"))
     open(os.path.join(root, "docs", "keep"), "wb").write(b"keep\n")
+    for rel in STALE:
+        open(os.path.join(root, rel), "wb").write(b"left by a server that was killed\n")
     return root
 
 
